@@ -3,6 +3,8 @@ package file
 import (
 	"fmt"
 	"os"
+	"runtime"
+	"runtime/debug"
 
 	"github.com/ozontech/file.d/metric"
 	"github.com/ozontech/file.d/pipeline"
@@ -18,15 +20,24 @@ type VerifInputer interface {
 	IncMaxEventSizeExceeded(lvs ...string)
 }
 
-// VerifRig is one real jobProvider (no watcher / maintenance goroutines started) plus one real worker whose
-// read loop is run synchronously: the job channel is fed by the provider's own refreshFile/addJob/
-// tryResumeJobAndUnlock and terminated by the nil job that Plugin.Stop uses.
+// VerifRig is one real jobProvider (watcher / maintenance goroutines not started) plus one real worker.
+// The read loop worker.work runs on its own goroutine exactly as in production and lives for a whole case, so
+// the state it carries between rounds and between jobs (its accumulation buffer) is the production state.
+// Jobs reach it through the provider's own refreshFile -> addJob / tryResumeJobAndUnlock; it is stopped with
+// the nil job Plugin.Stop uses. The caller synchronises on the job's isDone flag (set by processEOF -> doneJob),
+// never on time.
 type VerifRig struct {
 	jp     *jobProvider
 	w      *worker
 	logger *zap.SugaredLogger
-	job    *Job
+	exited chan struct{}
+	// PanicVal / PanicStack are set when the read loop panicked (readable after Exited() is closed).
+	PanicVal   string
+	PanicStack string
 }
+
+// VerifJob is a handle for one job of the rig.
+type VerifJob struct{ job *Job }
 
 const (
 	VerifStartReset    = "reset"
@@ -51,12 +62,54 @@ func VerifNewRig(maxEventSize int, cutOff bool, lg *zap.SugaredLogger) *VerifRig
 	}
 }
 
+// StartWorker runs the real read loop on a goroutine (what worker.start does).
+func (r *VerifRig) StartWorker(ctl VerifInputer, readBufferSize int) {
+	r.exited = make(chan struct{})
+	r.PanicVal, r.PanicStack = "", ""
+	exited := r.exited
+	go func() {
+		defer close(exited)
+		defer func() {
+			if p := recover(); p != nil {
+				r.PanicVal = fmt.Sprint(p)
+				r.PanicStack = string(debug.Stack())
+			}
+		}()
+		r.w.work(ctl, r.jp, readBufferSize, r.logger)
+	}()
+}
+
+// StopWorker sends the nil job and waits for the read loop to return.
+func (r *VerifRig) StopWorker() {
+	select {
+	case <-r.exited:
+		return
+	default:
+	}
+	select {
+	case r.jp.jobsChan <- nil:
+	case <-r.exited:
+		return
+	}
+	<-r.exited
+}
+
+// WorkerExited reports whether the read loop has returned (only a panic makes it return before StopWorker).
+func (r *VerifRig) WorkerExited() bool {
+	select {
+	case <-r.exited:
+		return true
+	default:
+		return false
+	}
+}
+
 // Open creates the job for filename the way a create notification does (refreshFile -> os.Open -> addJob).
 // start selects offsets_op; for "continue" savedOffset is the offset loaded from the offsets file for this source.
-func (r *VerifRig) Open(filename string, start string, savedOffset int64) error {
+func (r *VerifRig) Open(filename string, start string, savedOffset int64) (*VerifJob, error) {
 	stat, err := os.Stat(filename)
 	if err != nil {
-		return err
+		return nil, err
 	}
 	r.jp.loadedOffsets = nil
 	switch start {
@@ -73,68 +126,67 @@ func (r *VerifRig) Open(filename string, start string, savedOffset int64) error 
 			streams:  map[pipeline.StreamName]int64{pipeline.DefaultStreamName: savedOffset},
 		}}
 	default:
-		return fmt.Errorf("unknown start %q", start)
+		return nil, fmt.Errorf("unknown start %q", start)
 	}
 	r.jp.refreshFile(stat, filename, "", false)
-	r.job = r.jp.jobs[sourceIDByStat(stat, "")]
-	if r.job == nil {
-		return fmt.Errorf("no job was added for %s", filename)
+	r.jp.jobsMu.RLock()
+	job := r.jp.jobs[sourceIDByStat(stat, "")]
+	r.jp.jobsMu.RUnlock()
+	if job == nil {
+		return nil, fmt.Errorf("no job was added for %s", filename)
 	}
-	return nil
+	return &VerifJob{job: job}, nil
 }
 
-// Notify is a write notification for the file of the current job (refreshFile -> checkFileWasTruncated ->
-// tryResumeJobAndUnlock).
-func (r *VerifRig) Notify() error {
-	stat, err := os.Stat(r.job.filename)
+// Notify is a write notification for the file of the job (refreshFile -> checkFileWasTruncated ->
+// tryResumeJobAndUnlock). The job must be done (WaitDone returned true).
+func (r *VerifRig) Notify(j *VerifJob) error {
+	stat, err := os.Stat(j.job.filename)
 	if err != nil {
 		return err
 	}
-	r.jp.refreshFile(stat, r.job.filename, "", true)
+	r.jp.refreshFile(stat, j.job.filename, "", true)
 	return nil
 }
 
-// Round runs the real read loop until the queued jobs are consumed (it returns at the nil job, as on Plugin.Stop).
-func (r *VerifRig) Round(ctl VerifInputer, readBufferSize int) {
-	r.jp.jobsChan <- nil
-	r.w.work(ctl, r.jp, readBufferSize, r.logger)
+// WaitDone waits until the worker has finished its round on the job (processEOF -> doneJob set isDone).
+// It returns false when the read loop died instead.
+func (r *VerifRig) WaitDone(j *VerifJob) bool {
+	for {
+		if j.job.mu.TryLock() {
+			d := j.job.isDone
+			j.job.mu.Unlock()
+			if d {
+				return true
+			}
+		}
+		if r.WorkerExited() {
+			return false
+		}
+		runtime.Gosched()
+	}
 }
 
-// Queued is the number of jobs waiting for a worker.
-func (r *VerifRig) Queued() int { return len(r.jp.jobsChan) }
-
-// JobState returns the carried state of the current job.
-func (r *VerifRig) JobState() (curOffset int64, tail string, isDone bool) {
-	return r.job.curOffset, string(r.job.tail), r.job.isDone
-}
-
-// Close forgets the current job (real deleteJobAndUnlock when it is done) and closes its file.
-func (r *VerifRig) Close() {
-	if r.job == nil {
-		return
-	}
-	for len(r.jp.jobsChan) > 0 {
-		<-r.jp.jobsChan
-	}
-	job := r.job
-	r.job = nil
+// Close forgets a done job (real deleteJobAndUnlock) and closes its file. Only call with the worker stopped or
+// the job done.
+func (r *VerifRig) Close(j *VerifJob) {
+	job := j.job
 	job.mu.Lock()
 	if job.isDone {
 		r.jp.deleteJobAndUnlock(job)
 	} else {
 		job.mu.Unlock()
+		r.jp.jobsMu.Lock()
 		delete(r.jp.jobs, job.sourceID)
+		r.jp.jobsMu.Unlock()
 		r.jp.jobsDone.Store(0)
 	}
 	_ = job.file.Close()
 	r.jp.jobsLog = r.jp.jobsLog[:0]
 }
 
-// Abandon closes the file of the current job without touching locks (used after a panic inside the read loop;
-// the rig must not be used afterwards).
-func (r *VerifRig) Abandon() {
-	if r.job != nil {
-		_ = r.job.file.Close()
-		r.job = nil
-	}
+// Abandon closes the file of a job without touching locks (after a panic inside the read loop; the rig must
+// not be used afterwards).
+func (r *VerifRig) Abandon(j *VerifJob) {
+	_ = j.job.file.Close()
 }
